@@ -119,6 +119,38 @@ function starChainProject(rng) {
   return { files, label: "star-chain" };
 }
 
+// a barrel whose `export *` targets export ONE name with different meanings (legal TypeScript: the name is
+// ambiguous and simply not re-exported; beff lets the earlier line win) - with a target listed twice, reached
+// under two spellings ("./t0" and "./t0/index"-like duplicates are out of reach of the virtual resolver, a
+// repeated line is not), or reached again through a second barrel. Which declaration wins must not vary.
+function starConflictProject(rng) {
+  const n = 2 + rng.below(3);
+  const files = {};
+  const targets = [];
+  for (let i = 0; i < n; i++) {
+    targets.push(`t${i}`);
+    files[`t${i}.ts`] = `export type Shared = { from: ${i} };\nexport const shared = { from: ${i} } as const;\nexport type Only${i} = "only${i}";\n`;
+  }
+  let lines = targets.map((t) => `export * from "./${t}";\n`);
+  const dup = rng.below(4);
+  if (dup === 0) lines.splice(rng.below(lines.length + 1), 0, `export * from "./${rng.pick(targets)}";\n`);
+  else if (dup === 1) lines.push(lines[0]);
+  else if (dup === 2) {
+    files["inner.ts"] = rng.shuffle(targets).map((t) => `export * from "./${t}";\n`).join("");
+    lines.splice(rng.below(lines.length + 1), 0, 'export * from "./inner";\n');
+  }
+  if (rng.chance(0.5)) lines = rng.shuffle(lines);
+  files["barrel.ts"] = lines.join("");
+  files["entry.ts"] = rng.pick([
+    'import { Shared } from "./barrel";\nexport const P = parse.buildParsers<{ S: Shared }>();\n',
+    'import * as b from "./barrel";\nexport const P = parse.buildParsers<{ S: b.Shared; V: typeof b.shared }>();\n',
+    'import * as b from "./barrel";\nexport const P = parse.buildParsers<{ N: typeof b }>();\n',
+    'import { shared, Only0 } from "./barrel";\nexport const P = parse.buildParsers<{ V: typeof shared; O: Only0 }>();\n',
+    'export const P = parse.buildParsers<{ S: import("./barrel").Shared }>();\n',
+  ]);
+  return { files, label: "star-conflict" };
+}
+
 // one package name that means different files for importers in different directories (nested
 // node_modules); compiled through beff_wasm's own resolver as well, with partial registrations
 function nestedPackagesProject(rng) {
@@ -155,9 +187,10 @@ export async function run(ctx) {
       [2, "corpus"],
       [2, "near-miss"],
       [2, "star-chain"],
+      [2, "star-conflict"],
       [1.5, "nested-packages"],
     ]);
-    const p = kind === "supported" ? manyDeclsProgram(rng) : kind === "typeof-namespace" ? typeofNamespaceProject(rng) : kind === "multifile" ? multiFileProject(rng) : kind === "wild" ? wildProgram(rng) : kind === "near-miss" ? nearMissProject(rng) : kind === "star-chain" ? starChainProject(rng) : kind === "nested-packages" ? nestedPackagesProject(rng) : mutateCorpus(rng);
+    const p = kind === "supported" ? manyDeclsProgram(rng) : kind === "typeof-namespace" ? typeofNamespaceProject(rng) : kind === "multifile" ? multiFileProject(rng) : kind === "wild" ? wildProgram(rng) : kind === "near-miss" ? nearMissProject(rng) : kind === "star-chain" ? starChainProject(rng) : kind === "star-conflict" ? starConflictProject(rng) : kind === "nested-packages" ? nestedPackagesProject(rng) : mutateCorpus(rng);
     const base = { files: p.files, settings: p.settings ?? randomSettings(rng) };
     const names = Object.keys(p.files);
     // registration orders: lazy only, everything in three orders, and PARTIAL sets (one file, a random
